@@ -181,6 +181,55 @@ def run(tier, seed):
             rep.violation("spelling %r (%s, notnull=%s, array=%s) yields %s in model/result/parameter positions, not the documented type of %s"
                           % (sp, eng, nn, arr, sorted(set(tys)), klass),
                           {"engine": eng, "spelling": sp, "notnull": nn, "array": arr, "go_types": tys}, klass=kclass)
+
+    # (iii) route independence: the Go type depends only on the declared type and nullability the column ENDS UP with,
+    # not on the DDL route that led there (direct declaration vs ALTER ... TYPE / ADD COLUMN / SET / DROP NOT NULL /
+    # multi-command ALTER).  Metamorphic: every route is compared with the direct declaration, field by field.
+    jobs, meta = [], []
+    pg_sample = [sp for sp, _ in PG_SPELLINGS][::2] if tier == "quick" else [sp for sp, _ in PG_SPELLINGS]
+    for sp in pg_sample:
+        if sp.startswith(("serial", "bigserial", "smallserial")):
+            continue
+        for nn in (True, False):
+            n_ = " NOT NULL" if nn else ""
+            direct = "CREATE TABLE t (id %s%s, other %s%s);\n" % (sp, n_, sp, n_)
+            routes = {
+                "alter-type": "CREATE TABLE t (id text%s, other %s%s);\nALTER TABLE t ALTER COLUMN id TYPE %s;\n" % (n_, sp, n_, sp),
+                "set-data-type-2": "CREATE TABLE t (id boolean%s, other boolean%s);\nALTER TABLE t ALTER COLUMN id SET DATA TYPE %s, ALTER COLUMN other TYPE %s;\n" % (n_, n_, sp, sp),
+                "add-column": "CREATE TABLE t (id %s%s);\nALTER TABLE t ADD COLUMN other %s%s;\n" % (sp, n_, sp, n_),
+                "toggle-not-null": ("CREATE TABLE t (id %s, other %s);\nALTER TABLE t ALTER COLUMN id SET NOT NULL, ALTER COLUMN other SET NOT NULL;\n" % (sp, sp)) if nn
+                                   else ("CREATE TABLE t (id %s NOT NULL, other %s NOT NULL);\nALTER TABLE t ALTER COLUMN id DROP NOT NULL;\nALTER TABLE t ALTER COLUMN other DROP NOT NULL;\n" % (sp, sp)),
+                "drop-around": "CREATE TABLE t (j1 int, id %s%s, j2 text NOT NULL, other %s%s, j3 int);\nALTER TABLE t DROP COLUMN j1, DROP COLUMN j2, DROP COLUMN j3;\n" % (sp, n_, sp, n_),
+                "rename": "CREATE TABLE t0 (idx %s%s, other %s%s);\nALTER TABLE t0 RENAME COLUMN idx TO id;\nALTER TABLE t0 RENAME TO t;\n" % (sp, n_, sp, n_),
+                "drop-re-add": "CREATE TABLE t (id %s%s, other int);\nALTER TABLE t DROP COLUMN other, ADD COLUMN other %s%s;\n" % (sp, n_, sp, n_),
+            }
+            q = "-- name: Q :many\nSELECT id, other FROM t WHERE id = $1 AND other = $2;\n"
+            cfg = json.dumps({"version": "1", "packages": [{"path": "db", "engine": "postgresql", "schema": "schema.sql", "queries": "query.sql"}]})
+            for rname, schema in [("direct", direct)] + sorted(routes.items()):
+                jobs.append({"op": "generate", "summary": True, "nofiles": True, "files": {"sqlc.json": cfg, "schema.sql": schema, "query.sql": q}})
+                meta.append((sp, nn, rname, schema))
+    res = run_harness(jobs)
+    base = {}
+    for (sp, nn, rname, schema), r in zip(meta, res):
+        rep.count("route:" + rname)
+        if "panic" in r or not r.get("ok"):
+            rep.violation("sqlc fails on a valid DDL route (%s) to a column of type %r: %s" % (rname, sp, r.get("panic") or r.get("stderr")),
+                          {"schema": schema, "spelling": sp, "notnull": nn})
+            continue
+        view = {}
+        for fname in ("db/models.go", "db/query.sql.go"):
+            for st in r["summary"].get(fname, {}).get("structs", []):
+                view[st["name"]] = sorted((f["name"], f["type"]) for f in st["fields"])
+        if rname == "direct":
+            base[(sp, nn)] = (view, schema)
+            continue
+        rep.case(("route", sp, nn, rname), nontrivial=True)
+        if (sp, nn) in base and view != base[(sp, nn)][0]:
+            rep.violation("the Go types of a column declared %r%s depend on the DDL route: declared directly %s, through route %s %s"
+                          % (sp, " NOT NULL" if nn else "", base[(sp, nn)][0], rname, view),
+                          {"direct_schema": base[(sp, nn)][1], "route_schema": schema, "route": rname, "direct": base[(sp, nn)][0], "via_route": view})
+    import c08
+    c08.history_subcheck(rep, PROP, seed, 2500 if tier == "quick" else 20000)
     rep.extra["exhaustive"] = True
     if getattr(rep, "proof_broken", None) and not rep.violations:
         rep.violation("proof obligation no longer checks: " + rep.proof_broken, {"theorem_file": "coq/theories/Props/C09.v", "detail": info}, no_input=True)
